@@ -208,6 +208,8 @@ def binOp (f : String) (a b : Val) : Except String Val :=
   | "||", a, b =>
     if a.truthy || b.truthy then .ok (boolV true)
     else if a.isNull || b.isNull then .ok .null else .ok (boolV false)
+  -- the arrow of ArgMin / ArgMax is a pair: a null argument or value stays inside it (JSON_OBJECT keeps it)
+  | "->", x, y => .ok (.record [("arg", x), ("value", y)])
   | _, .null, _ => .ok .null
   | _, _, .null => .ok .null
   | "+", .int x, .int y => .ok (.int (x + y))
@@ -226,7 +228,6 @@ def binOp (f : String) (a b : Val) : Except String Val :=
   | "Greatest", x, y => .ok (if Val.lt x y then y else x)
   | "Element", .list l, .int i => .ok (if i < 0 then .null else (l[i.toNat]?).getD .null)
   | "ArrayConcat", .list x, .list y => .ok (.list (x ++ y))
-  | "->", x, y => .ok (.record [("arg", x), ("value", y)])
   | f, _, _ => .error ("bad operator application " ++ f)
 
 def unOp (f : String) (a : Val) : Except String Val :=
